@@ -47,7 +47,9 @@ LINES = ["x = 1", "    y", "", "# c", "ls -l | grep $X", "if a:", "        z", "
          # a leading '<' / '<<' puts the line two / four columns left of the block's indentation (dedented comments)
          "<# d", "<<# e",
          # characters str.splitlines() takes for line ends, inside a multi-line string of the block
-         "r = '''a\x0cb", "c\u2028d'''"]
+         "r = '''a\x0cb", "c\u2028d'''",
+         # one statement over several physical lines, with an empty and a repeated line inside the string
+         "d = '''first\n\n    same\n    same\n'''"]
 AFTER = ["", "y = 2\n", "if z:\n    pass\n"]
 
 
@@ -100,6 +102,9 @@ def cases(unit: tuple) -> Iterator[dict]:
                 for after in AFTER:
                     yield {"kind": "with", "body": body, "after": after, "indent": 0}
                 yield {"kind": "with", "body": body, "after": "return 1\n", "indent": 4}
+                # the same block indented by a tab (eight columns, one character)
+                yield {"kind": "with", "body": body, "after": "y = 2\n", "indent": 0, "tab": True}
+                yield {"kind": "with", "body": body, "after": "return 1\n", "indent": 4, "tab": True}
     elif k == "with1":
         for i in range(len(ATOMS)):
             for text in _seqs(i, min(unit[2], 3)):
@@ -240,7 +245,8 @@ def _procfam(raw: str) -> str:
 def _with_src(case: dict) -> tuple[str, str]:
     ind = " " * case["indent"]
     head = ("def f():\n" if case["indent"] else "") + f"{ind}with! ctx as c:\n"
-    lines = [_place(ind, ln) for ln in case["body"]]
+    unit = "\t" if case.get("tab") else "    "
+    lines = [_place(ind, ln, unit) for ln in case["body"]]
     block = "".join(lines)
     after = "".join(ind + ln + "\n" for ln in case["after"].splitlines()) if case["after"] else ""
     # the block's own text: everything up to the next statement, minus the comment lines after its last code line
@@ -248,18 +254,19 @@ def _with_src(case: dict) -> tuple[str, str]:
     last = max((i for i, ln in enumerate(case["body"]) if _is_code(ln)), default=len(lines) - 1)
     keep = len(lines)
     for i in range(last + 1, len(lines)):
-        if lines[i].lstrip().startswith("#") and len(lines[i]) - len(lines[i].lstrip()) < len(ind) + 4:
+        blanks = lines[i][: len(lines[i]) - len(lines[i].lstrip())]
+        if lines[i].lstrip().startswith("#") and len(blanks.expandtabs(8)) < len((ind + unit).expandtabs(8)):
             keep = i
             break
     return head + block + after, "".join(lines[:keep])
 
 
-def _place(ind: str, ln: str) -> str:
+def _place(ind: str, ln: str, unit: str = "    ") -> str:
     if ln.startswith("<<"):
         return ind + ln[2:] + "\n"
     if ln.startswith("<"):
         return ind + "  " + ln[1:] + "\n"
-    return ind + "    " + ln + "\n"
+    return ind + unit + ln + "\n"
 
 
 def _is_code(ln: str) -> bool:
@@ -308,6 +315,9 @@ def _check_with(case: dict, acc: Any) -> None:
         first = next(ln for ln in body if _is_code(ln))
         if first[0] in " \t" or any(ln[:1] == "\t" for ln in body):
             acc.count("outside:first-line-not-at-block-indent")
+            return
+        if any("\n" in ln for ln in body) and sum(ln.count("'''") for ln in body if "\n" not in ln):
+            acc.count("outside:multi-line-entry-inside-another-string")  # the entry's own lines would become code
             return
         if not _consistent_indent(body):
             acc.count("outside:inconsistent-dedent")  # the block does not tokenize (IndentationError): outside the domain
